@@ -330,6 +330,80 @@ func extractC15() *lean {
 		})
 	}
 	l.def("extractCertificateIndex", "String", fmt.Sprintf("%q", certIdx), certIdx)
+
+	// dag/pal.go PAL.Encrypt: `continue` statements (a skipped participant), the checks inside the recipient loop and whether
+	// each returns an error
+	_, palF := parseFile("network/dag/pal.go")
+	continues := 0
+	var encChecks []string
+	allRet := true
+	for _, d := range palF.Decls {
+		fd, ok := d.(*ast.FuncDecl)
+		if !ok || fd.Name.Name != "Encrypt" {
+			continue
+		}
+		ast.Inspect(fd, func(n ast.Node) bool {
+			if b, ok := n.(*ast.BranchStmt); ok && b.Tok == token.CONTINUE {
+				continues++
+			}
+			return true
+		})
+		for _, st := range fd.Body.List {
+			rs, ok := st.(*ast.RangeStmt)
+			if !ok || exprString(rs.X) != "pal" {
+				continue
+			}
+			for _, inner := range rs.Body.List {
+				if is, ok := inner.(*ast.IfStmt); ok {
+					encChecks = append(encChecks, c15Src(is.Cond))
+					last := is.Body.List[len(is.Body.List)-1]
+					if r, ok := last.(*ast.ReturnStmt); !ok || len(r.Results) != 2 || c15Src(r.Results[0]) != "nil" || c15Src(r.Results[1]) == "nil" {
+						allRet = false
+					}
+				}
+			}
+		}
+	}
+	l.def("encryptContinues", "Nat", fmt.Sprint(continues), continues)
+	l.def("encryptLoopChecks", "List String", leanStrList(encChecks), encChecks)
+	l.def("encryptChecksAllReturnError", "Bool", c15Bool(allRet), allRet)
+
+	// grpc/authenticator.go: tlsAuthenticator must be stateless
+	var authFields, pkgVars []string
+	recv := "MISSING"
+	for _, d := range auth.Decls {
+		switch x := d.(type) {
+		case *ast.GenDecl:
+			for _, sp := range x.Specs {
+				switch y := sp.(type) {
+				case *ast.TypeSpec:
+					if st, ok := y.Type.(*ast.StructType); ok && y.Name.Name == "tlsAuthenticator" {
+						for _, f := range st.Fields.List {
+							for _, nm := range f.Names {
+								authFields = append(authFields, nm.Name)
+							}
+							if len(f.Names) == 0 {
+								authFields = append(authFields, "embedded:"+c15Src(f.Type))
+							}
+						}
+					}
+				case *ast.ValueSpec:
+					if x.Tok == token.VAR {
+						for _, nm := range y.Names {
+							pkgVars = append(pkgVars, nm.Name)
+						}
+					}
+				}
+			}
+		case *ast.FuncDecl:
+			if x.Name.Name == "Authenticate" && x.Recv != nil && strings.Contains(c15Src(x.Recv.List[0].Type), "tlsAuthenticator") {
+				recv = c15Src(x.Recv.List[0].Type)
+			}
+		}
+	}
+	l.def("tlsAuthenticatorFields", "List String", leanStrList(authFields), authFields)
+	l.def("authenticateReceiver", "String", fmt.Sprintf("%q", recv), recv)
+	l.def("authenticatorPackageVars", "List String", leanStrList(pkgVars), pkgVars)
 	l.def("authenticateSetsFlag", "Bool", c15Bool(setsAuth), setsAuth)
 	return l
 }
